@@ -12,6 +12,7 @@ real code    : every budget identity is also evaluated directly on the real vect
 """
 import math
 import copy
+import warnings
 import numpy as np
 
 from common import req, close, relerr, TOL, run_driver
@@ -363,9 +364,10 @@ def _case(scn, k, q_prev, t_prev, q, t, flags, mode, tag):
 
 
 def run(ctx, lean_ok):
+    warnings.filterwarnings('ignore')
     tam = _tamoc()
     r = ctx.rng
-    nscn = ctx.n(24, 200)
+    nscn = ctx.n(24, 400)
     rows_per = ctx.n(4, 6)
     pert_per = ctx.n(4, 6)
     states = []        # (case, result)
